@@ -116,6 +116,15 @@ class DecShapes:
                 while j < n and its[j][0] in ('?', 'CFG'):
                     j += 1
                 if j < n and its[j][0] == 'alt' and self._scrut_is_byte(its[j][1], e[1]):
+                    # a `match byte` whose catch-all arm does not reject only classifies the byte (`matches!(byte, 0 | 1)`):
+                    # what is accepted is decided further on — probe the whole rest for each byte value instead
+                    lax = any(isinstance(d, tuple) and d[0] == 'pat' and (d[1] == '_' or d[2] is None) and not _pure_err(x) for d, x in its[j][2])
+                    if lax and j + 1 < n:
+                        w = self.probed_tag_alt(sym.cat(*its[j:]), e[1], impl, fn)
+                        if w is not None:
+                            out.append(w)
+                            i = n
+                            continue
                     out.append(self.tag_alt(its[j], impl, fn))
                     i = j + 1
                     continue
